@@ -106,6 +106,7 @@ func main() {
 	coqroot := flag.String("coq", "/verif/coq", "Coq development (theories, shim)")
 	profile := flag.String("profile", "default", "generator profile: default | core | noshadow | core-noshadow | incdec32 | catalogue")
 	only := flag.String("only", "", "catalogue: only the items whose id contains this")
+	skip := flag.String("skip", "", "catalogue: leave out the items whose id starts with this")
 	repsFlag := flag.Int("reps", 200, "conc: native repetitions of every call")
 	noRace := flag.Bool("norace", false, "conc: run the native side without the race detector")
 	keep := flag.String("keep", "", "keep the scratch module in this directory")
@@ -175,7 +176,7 @@ func main() {
 	conc := *profile == "conc"
 	catalogue := *profile == "catalogue" || conc
 	if catalogue {
-		cases = catalogueCases(mod, *only, conc)
+		cases = catalogueCases(mod, *only, *skip, conc)
 		*n = 0
 	}
 	lenient := catalogue || *profile == "inject" || *profile == "minigo-neg" // declarations may be rejected
@@ -591,13 +592,14 @@ func declChecks(pkg *progen.Package, v string) []string {
 	}
 	want := map[string]bool{}
 	for _, d := range pkg.Decls {
-		n := d.DeclName()
-		if want[n] {
-			probs = append(probs, "two Go declarations share the Coq name "+n)
-		}
-		want[n] = true
-		if count[n] != 1 {
-			probs = append(probs, fmt.Sprintf("declaration %s yields %d definitions", n, count[n]))
+		for _, n := range d.DeclNames() {
+			if want[n] {
+				probs = append(probs, "two Go declarations share the Coq name "+n)
+			}
+			want[n] = true
+			if count[n] != 1 {
+				probs = append(probs, fmt.Sprintf("declaration %s yields %d definitions", n, count[n]))
+			}
 		}
 	}
 	for n := range count {
